@@ -311,10 +311,9 @@ impl TopicCleanTracker {
         }
         #[cfg(walrus_verif)]
         crate::wal::verif::sched_point("tc_before_persist");
-        let res = self.store.persist_updates(&updates);
         #[cfg(walrus_verif)]
-        crate::wal::verif::sched_point("tc_after_persist");
-        res
+        let _after_persist = crate::wal::verif::SchedOnDrop("tc_after_persist");
+        self.store.persist_updates(&updates)
     }
 
     #[cfg(test)]
